@@ -9,6 +9,7 @@ import os
 ELEMS = {
     "Z0": (0, 1, False, "S"), "Z0D": (0, 1, False, "S"),
     "B1": (1, 1, False, "S"), "H2": (2, 2, False, "S"), "B3D": (3, 1, True, "S"),
+    "F4": (4, 1, False, "S"), "P8D": (8, 2, True, "S"),
     "W8": (8, 8, False, "S"), "W8D": (8, 8, True, "S"),
     "T12": (12, 4, False, "M"), "Q16": (16, 16, False, "M"), "D24D": (24, 8, True, "M"),
     "A32": (32, 32, False, "L"), "A64": (64, 64, False, "L"), "L160D": (160, 8, True, "L"),
@@ -31,7 +32,7 @@ COMMON_ASSUMPTIONS = [
 
 
 KANI_BOUNDS = ("lengths/capacities/indices <= 3 (quick) / 4-5 (thorough) with the shape symbolic for element sizes <= 8 bytes and enumerated for larger ones; "
-               "replacement lengths <= 2-3; element layouts {0,1,2,3,8,12,16,24,32,64,160 bytes; align 1..64; with/without drop glue}; backends Heap, Stack, StackN, user-defined relocating Reloc; "
+               "replacement lengths <= 2-3; element layouts {0,1,2,3,4,8,12,16,24,32,64,160 bytes; align 1..64 (incl. power-of-two sizes larger than the alignment); with/without drop glue}; backends Heap, Stack, StackN, user-defined relocating Reloc / RelocK<1> (non-zero initial capacity); "
                "constraint sets none / Cloneable / Send / Sync / Cloneable+Send+Sync. Everything larger is outside the claim.")
 PROP_META = {
     "C01": dict(bounds=KANI_BOUNDS, explanation="one operation instance from an arbitrary valid state vs a Vec reference model; post-state re-checked to be a valid state (inductive step)",
@@ -83,6 +84,8 @@ def bk(b, elem, cap):
         return "Heap"
     if b == "reloc":
         return "Reloc"
+    if b == "reloc1":   # user-defined backend whose build() already hands out room for one element
+        return "RelocK<1>"
     if b == "stack":
         return "Stack<%d>" % (cap * size)
     if b == "stackn":
